@@ -11,6 +11,10 @@ containers that the dispatcher, or a function of its module that it can reach, w
   * reachable code: `__array_ufunc__`, `_coerce_iterable_units`, the functions named in the
     `_ufunc_registry` display, and (transitively) every function of the module they call by name
     and every method of `unyt_array` they call on `self`;
+  * caching decorators of the module applied to reachable functions (`_unit_rule_cache`: a
+    `functools.lru_cache` per rule function behind a wrapper): a memo row on block "rule" whose key
+    fields are what the wrapper passes to the cached callable (`*args`→unit0, unit1; the tuple of
+    `id(arg.registry)`→reg0, reg1; "rule" because the cache is created once per decorated function);
   * for every container written there (`X[k] = v`, `X[k] op= v`, `del X[k]`, `X.update/…(…)`,
     `global X` rebinding): a memo row `(name, block, key fields, maxsize)` when it has the shape of a
     memo (`X[key] = …` with a tuple key), else the name goes to the unmodelled list.
@@ -182,6 +186,58 @@ def generate(X):
                 elif isinstance(r, ast.Name) and r.id in consts:
                     maxsize = consts[r.id]
         memos.append((c, block, fields, maxsize))
+    # memos made by a caching decorator of the module (`functools.lru_cache` inside a decorator applied to
+    # reachable functions): the key is what the wrapper passes to the cached callable
+    def last_name(f):
+        return f.id if isinstance(f, ast.Name) else (f.attr if isinstance(f, ast.Attribute) else "")
+    users = {}
+    for fname, fn in reach.items():
+        for d in fn.decorator_list:
+            dn = d.func if isinstance(d, ast.Call) else d
+            if isinstance(dn, ast.Name) and dn.id in module_fns:
+                users.setdefault(dn.id, []).append(fname)
+            elif last_name(dn) in ("lru_cache", "cache"):
+                # cached directly: keyed by all its arguments, one cache per function
+                mx = 128
+                if isinstance(d, ast.Call):
+                    for k in d.keywords:
+                        if k.arg == "maxsize" and isinstance(k.value, ast.Constant):
+                            mx = k.value.value if isinstance(k.value.value, int) else 10**9
+                memos.append((fname, "rule" if fname in registry_names else "unmodelled", ["rule", "unit0", "unit1"], mx))
+    for D in sorted(users):
+        dfn = module_fns[D]
+        lru = [c for c in ast.walk(dfn) if isinstance(c, ast.Call) and last_name(c.func) in ("lru_cache", "cache")]
+        if not lru:
+            continue
+        cache_names = {t.id for a in ast.walk(dfn) if isinstance(a, ast.Assign)
+                       and any(m is c for m in ast.walk(a.value) for c in lru) for t in a.targets if isinstance(t, ast.Name)}
+        calls = [c for c in ast.walk(dfn) if isinstance(c, ast.Call) and isinstance(c.func, ast.Name) and c.func.id in cache_names]
+        block = "rule" if set(users[D]) & registry_names else "unmodelled"
+        if not calls:
+            memos.append((D, "unmodelled", [], 0))
+            continue
+        fields = ["rule"]          # the cache is created inside the decorator: one per decorated function
+        for a in calls[0].args:
+            if isinstance(a, ast.Starred):
+                fields += ["unit0", "unit1"]
+            elif isinstance(a, ast.Subscript) and ast.unparse(a) in ("args[0]", "args[1]"):
+                fields.append("unit0" if ast.unparse(a) == "args[0]" else "unit1")
+            elif isinstance(a, ast.Name):
+                vals = [ast.unparse(x.value) for x in ast.walk(dfn) if isinstance(x, ast.Assign)
+                        and any(isinstance(t, ast.Name) and t.id == a.id for t in x.targets)]
+                if vals and "registry" in vals[-1] and "for arg in args" in vals[-1]:
+                    fields += ["reg0", "reg1"]
+                else:
+                    fields.append("other")
+            else:
+                fields.append("other")
+        for k in calls[0].keywords:
+            fields.append("other")
+        mx = 128
+        for k in lru[0].keywords:
+            if k.arg == "maxsize" and isinstance(k.value, ast.Constant):
+                mx = k.value.value if isinstance(k.value.value, int) else 10**9
+        memos.append((D, block, fields, mx))
     L = X.lstr
     rows = ",\n".join(f"  ({L(n)}, {L(b)}, [{', '.join(L(f) for f in fs)}], {mx})" for n, b, fs, mx in memos)
     text = (
